@@ -375,10 +375,10 @@ def std_configs(tier, hists=("full",), stops=(2,), bss=(1, 2, 3, 20), small=Fals
               ("3d-h3", fmm_constants(3, 3, POOL_3D_H3[:5 if small else 6], bss=bss, stops=stops, hists=hists)),
               ("4d-h3", fmm_constants(4, 3, POOL_4D_H3[:4], bss=bss, stops=stops, hists=hists))]
     else:
-        cs = [("1d-h5", fmm_constants(1, 5, list(range(16))[:11], bss=bss + (5,), stops=stops, hists=hists)),
+        cs = [("1d-h5", fmm_constants(1, 5, list(range(16))[:10], bss=bss + (5,), stops=stops, hists=hists)),
               ("1d-h6", fmm_constants(1, 6, POOL_1D_H6, bss=bss, stops=stops, hists=hists)),
               ("2d-h4", fmm_constants(2, 4, POOL_2D_H4, bss=bss, stops=stops, hists=hists)),
-              ("2d-h3", fmm_constants(2, 3, POOL_2D_H3[:12], bss=bss, stops=stops, hists=hists)),
+              ("2d-h3", fmm_constants(2, 3, POOL_2D_H3[:10], bss=bss, stops=stops, hists=hists)),
               ("3d-h3", fmm_constants(3, 3, POOL_3D_H3, bss=bss, stops=stops, hists=hists)),
               ("3d-h4", fmm_constants(3, 4, POOL_3D_H4[:7], bss=bss, stops=stops, hists=hists)),
               ("4d-h3", fmm_constants(4, 3, POOL_4D_H3, bss=bss, stops=stops, hists=hists))]
